@@ -306,6 +306,7 @@ def run(tier):
     progs = [cd.gen_program(rnd, rnd.choice([1, 2, 3]), focus='interp',
                             templates=['T1', 'T3', 'T5', 'T7'])
              for _ in range(150 if tier == 'quick' else 1500)]
+    progs += cd.interp_argument_programs()
     cd.run_programs(out, progs, {'val'}, 'C17-core', prop='C17')
     out.assumptions = [
         'integer coordinates (sigma edges in 1/8 units, exact in float32): the exact weights '
